@@ -329,15 +329,55 @@ class World:  # pylint: disable=too-many-instance-attributes,too-many-public-met
             # another handle, that handle is a *new* process (fresh handle): a long-open handle whose read snapshot
             # predates another handle's commit cannot upgrade to a write (SQLITE_BUSY_SNAPSHOT) - outside C01-C18.
             idx = op.get('h', 0) % len(side.handles)
-            if side.last_index_writer is not None and side.last_index_writer != idx:
+            # 'stale_maintenance' histories: handle 0 is a long-open maintenance client that is never re-opened, every
+            # other handle is a short-lived client (fresh before each index-writing operation). delete_objects is
+            # documented as "no other process accessing": it always goes through handle 0 (see hist.generate).
+            stale_mode = bool(self.case.get('stale_maintenance'))
+            stale_ok = stale_mode and idx == 0 and name not in ('delete', 'import')  # (partial deletes are documented)
+            maybe_stale = stale_ok  # its session may date from any earlier operation of this handle
+            if (stale_mode and not stale_ok) or (not stale_mode and side.last_index_writer not in (None, idx)):
                 side.handles[idx].close()
                 side.handles[idx] = self.lib.Container(side.folder)
             side.last_index_writer = idx
+        else:
+            maybe_stale = False
         self.stats['ops'][name] = self.stats['ops'].get(name, 0) + 1
         pre = None
         if self.oracle is not None and hasattr(self.oracle, 'before'):
             pre = self.oracle.before(self, side, op)
-        info = getattr(self, 'op_' + name)(side, op)
+        try:
+            info = getattr(self, 'op_' + name)(side, op)
+        except Exception as exc:  # pylint: disable=broad-except
+            # 'stale_maintenance' histories: maintenance through a long-open handle whose snapshot predates another
+            # handle's commit may *fail loudly* (SQLite's "database is locked" = SQLITE_BUSY_SNAPSHOT, or an error while
+            # reading a pack through outdated offsets): nothing happened as far as the model is concerned, which the
+            # generic oracles verify right after. What it may never do is succeed - or fail - and damage something.
+            if isinstance(exc, Violation) or not maybe_stale:
+                raise
+            self.stats['refused_stale'] = self.stats.get('refused_stale', 0) + 1
+            idx = op.get('h', 0) % len(side.handles)
+            try:
+                side.handles[idx].close()
+            except Exception:  # pylint: disable=broad-except
+                pass
+            packdir = os.path.join(side.folder, 'packs')
+            for lock in [n for n in os.listdir(packdir) if n.endswith('.lock')]:
+                os.remove(os.path.join(packdir, lock))
+            side.handles[idx] = self.lib.Container(side.folder)
+            # a repack refused at its first index write leaves the (unreferenced) temporary pack behind: manual repair
+            leftover = os.path.join(packdir, '-1')
+            if os.path.exists(leftover):
+                import sqlite3  # pylint: disable=import-outside-toplevel
+
+                conn = sqlite3.connect(os.path.join(side.folder, 'packs.idx'))
+                try:
+                    referenced = conn.execute('SELECT COUNT(*) FROM db_object WHERE pack_id = -1').fetchone()[0]
+                finally:
+                    conn.close()
+                if not referenced:
+                    os.remove(leftover)
+            info = {'refused': True}
+            op = {'op': 'reopen', 'h': idx, 't': op.get('t', 'c')}  # the generic oracles still run: nothing may be damaged
         self.last_info = info
         if self.oracle is not None:
             self.oracle.after(self, side, op, info, pre)
